@@ -21,3 +21,65 @@ MANIFEST = dict(
     text='TLC enumerates every Boolean formula (Polish notation) with <= 3 connectives over five leaves for three atom tables covering all 13 operator kinds, rendered with minimal and with full round/curly brackets; each is run on world W3 (all 8 truth assignments, boundary entries) and judged by Judge_Filter with three-valued Boolean evaluation (Eval!EvalP).',
     note='Trusted: TLC, Eval.tla, Lang.tla rendering. Quick: all formulas with <= 2 connectives plus 8000 sampled of the 189 120 with <= 3; thorough: all.',
     technique='TLC formula enumeration + replay + TLA+ judge')
+
+
+def _parser_conformance(ctx, tier, seed):
+    """Spec -> implementation replay for the Lexer + Parser Mech models: every formula of the small generator is parsed by the
+    real binary (debug = true dump of the Query) and by Parser!ParseWhere(Lexer!LexAll(..)); the two ASTs must be equal."""
+    import random
+    import time
+    from driver import lib, check, rustdbg
+    t0 = time.time()
+    r = lib.run_tlc("MC_C03", "MC_C03_q2", workers=4)
+    lib.tlc_ok(r, "MC_C03")
+    scs = r.replays
+    if tier == "quick" and len(scs) > 3000:
+        random.Random(seed + 2).shuffle(scs)
+        scs = scs[:3000]
+
+    def strip(v):
+        """Expr dicts: drop the struct name; absent Expr / argument lists get a shape of their own (see Parser.tla)."""
+        if isinstance(v, dict):
+            d = {k: strip(x) for k, x in v.items() if k != "_"}
+            if "left" in d and "args" in d:
+                for k in ("left", "right"):
+                    if d[k] == "None":
+                        d[k] = {"none": True}
+                d["args"] = {"some": False, "list": []} if d["args"] == "None" else {"some": True, "list": d["args"]}
+            return d
+        if isinstance(v, list):
+            return [strip(x) for x in v]
+        return v
+
+    def ex(item):
+        i, scn = item
+        scn = dict(scn, id=i + 1)
+        scn["env"] = dict(scn["env"], config={"debug": True})
+        rec = check.default_execute(scn, ctx)
+        o = rec["obs"]["q"]
+        try:
+            q = rustdbg.parse(o.get("parsed") or "None")
+        except Exception:
+            q = "unparsable"
+        expr = strip(q.get("expr", "None")) if isinstance(q, dict) else "None"
+        if expr == "None":
+            expr = {"none": True}
+        return {"id": i + 1, "class": scn["class"], "queryc": list(scn["runs"][0]["argv"][0]), "runs": scn["runs"],
+                "obs": {"q": {"status": o["status"], "timed_out": o["timed_out"], "panic": o["panic"], "expr": expr}}}
+    obs = lib.pmap(ex, list(enumerate(scs)), workers=14)
+
+    class P:
+        pass
+    P.ID = "Parser"
+    P.JUDGE = "Judge_Parser"
+    verdicts, jstates = check.judge(P, obs, ctx)
+    bad = [v for v in verdicts if not v["ok"]]
+    byid = {o["id"]: o for o in obs}
+    import json
+    drift = ["%s argv=%s" % (v["why"], json.dumps(byid[v["id"]]["runs"][0]["argv"])[:220]) for v in bad[:8]]
+    return {"name": "Parser", "kind": "replay", "module": "Parser", "states": jstates, "validated": len(verdicts) - len(bad),
+            "rejected": len(bad), "drift": drift, "wall_s": round(time.time() - t0, 1)}
+
+
+def conformance(tier, seed):
+    return [dict(name="Parser", run=_parser_conformance)]
